@@ -494,9 +494,18 @@ def oracle_plan(case, obs):
     moved = [d for d in used if obs["motors"][d][1]]
     name = case["plan_call"]["name"]
     off = plan_offsets(case)
+    # an exception injected AT a message of the clean-up itself (a reset `set` or the wait on them) interrupts the
+    # clean-up, which the property does not speak about (the resets not yet yielded never happen): the 'left where it
+    # started' clause is then not applied; the offsets clause still is
+    fa = case.get("fail_at")
+    ys = [o for o in tr if o[0] == "y"]
+    in_cleanup = False
+    if fa and fa[0] - 1 < len(ys):
+        c0 = ys[fa[0] - 1][2]
+        in_cleanup = (c0[0] == "set" and c0[3] % 1000 == 104) or (c0[0] == "wait" and c0[1] % 1000 == 104)
     for d in used:
         calls = [R.num_py(c) for c in obs["motors"][d][1]]
-        if name != "mvr" and calls and tr[-1][0] in ("r", "e") and not (tr[-1][0] == "e" and tr[-1][1] in GE):
+        if name != "mvr" and calls and not in_cleanup and tr[-1][0] in ("r", "e") and not (tr[-1][0] == "e" and tr[-1][1] in GE):
             if R.num_js(calls[-1]) != R.num_js(init[d]) and R.num_py(R.num_js(calls[-1])) != init[d]:
                 return "motor %d started at %r and was left at %r (moves: %r)" % (d, init[d], calls[-1], calls)
         if d in off:
